@@ -26,7 +26,7 @@ func init() {
 func checkC17(tier, replay string) int {
 	run := evid.NewRun("C17", tier, "exploration")
 	run.Rule("inmem.New(): (a) sequential differential against the reference map over random sequences of all handler methods (relative TTLs; expiry scenarios use TTL 1 + a 2.1 s sleep for 'must be absent' and TTL >= 1000 for 'must be present'); " +
-		"(b) in a fresh process 8..32 goroutines construct the backend at the same moment (first use) and must see each other's keys; then 2..32 goroutines sharing the singleton under the race detector, mixing reads of missing keys, reads of own keys and writes: the child's exit status, its stderr (fatal error / race reports) and per-goroutine exact models are the monitors. " +
+		"other connections (further New() handles) are closed between the commands; (b) in a fresh process 8..32 goroutines construct the backend at the same moment (first use) and must see each other's keys; then 2..32 goroutines sharing the singleton under the race detector, mixing reads of missing keys, reads of own keys and writes: the child's exit status, its stderr (fatal error / race reports) and per-goroutine exact models are the monitors. " +
 		"distinct_nontrivial = distinct op-kind sequences + distinct (goroutines, repeat) concurrent runs")
 	run.Assume("inmem documents relative TTLs only; keys are namespaced per case because the singleton cannot be reset")
 	res := spawnChild(run, "C17seq", 10*time.Minute, nil)
@@ -98,6 +98,11 @@ func childC17Seq(args []string) int {
 			var retained []held
 			for _, c := range cs {
 				exp := expected(mm, c, true)
+				if len(c.Key)%3 == 0 || c.IsGet() && len(c.Keys) == 2 {
+					// another connection of the same server ends: the shared instance lives on
+					newInmem().Close()
+					run.Count("other_connections_closed", 1)
+				}
 				obs := handlerExec(h, c, 0)
 				d := diffResult(c, exp, obs, true)
 				// a response handed out earlier is the client's: later commands must not change it
@@ -388,6 +393,9 @@ func childC17Conc(args []string) int {
 					c = wire.Cmd{Op: "delete", Key: fmt.Sprintf("missing.%d.%d", gi, rng.Intn(1000))}
 				}
 				exp := expected(m, c, true)
+				if i%97 == 96 {
+					newInmem().Close() // a connection of its own that comes and goes
+				}
 				obs := handlerExec(h, c, 0)
 				run.Count("concurrent_operations", 1)
 				if d := diffResult(c, exp, obs, true); d != "" {
